@@ -76,3 +76,10 @@ Section Reduce.
     let scal := fold_left (fun acc i => op acc (f i)) (seq 0 s ++ seq (s + w * p)%nat t) e0 in
     fold_left (fun acc lane => op acc (lane_total f s w p lane)) (seq 0 w) scal.
 End Reduce.
+
+(* rows of an operand of rank > 1 all start at the alignment of the first one iff every stride but the last is a
+   multiple of w (Array::columns_aligned_, FixedArray::all_arrays_contiguous_); the last stride must be 1 *)
+Definition rows_ok (w : Z) (strides : list Z) : bool :=
+  (last strides 0 =? 1) && forallb (fun s => s mod w =? 0) (removelast strides).
+Fixpoint dotZ (idx strides : list Z) : Z :=
+  match idx, strides with i :: idx', s :: strides' => i * s + dotZ idx' strides' | _, _ => 0 end.
